@@ -322,6 +322,8 @@ package msg
 //@   ensures  [inv-sound] inflightSound(b)
 //@   ensures  [inv-excl]  exclusive(b)
 //@   ensures  [started]   old(string(topic)) in b.startedSending
+//@   // every Send refreshes the topic's last-send epoch: an active topic does not expire (and is then buffered again and stranded)
+//@   ensures  [stamped]   b.startedSending[old(string(topic))] == old(b.currentGCEpochNum)
 //@   ensures  [released]  released(b, old(string(topic)))
 //@   loop 0: invariant [wf]      wellFormed(b) && initialised(b)
 //@   loop 0: invariant [sound]   inflightSound(b)
